@@ -339,6 +339,8 @@ pub struct ServerSim {
     pub case_limit: usize,
     pub clients: BTreeMap<usize, Client>,
     pub conn_to_client: Vec<usize>,
+    /// another server alive in the same process (never polled again after set-up)
+    pub sibling: Option<HttpServer>,
     pub outstanding: Vec<(String, usize, ServerRequest)>,
     pub killed: bool,
     pub flags: Flags,
@@ -481,7 +483,22 @@ impl ServerSim {
             },
         });
         let prop = flags.prop;
-        let built = catch_unwind(AssertUnwindSafe(|| -> Result<(HttpServer, Option<EventFd>, Option<EventFd>), String> {
+        // fd_high 10..13: ANOTHER HttpServer lives in the same process (same thread), set up first, with
+        // 3 / 6 / 8 / 9 connections of its own that stay open: nothing of it may count against this one
+        let sib_n = if case.fds_from_zero { 0 } else { match case.fd_high { 10 => 3, 11 => 6, 12 => 8, 13 => 9, _ => 0 } };
+        let built = catch_unwind(AssertUnwindSafe(|| -> Result<(HttpServer, Option<EventFd>, Option<EventFd>, Option<HttpServer>), String> {
+            let sibling = if sib_n > 0 {
+                let mut s2 = HttpServer::new("/sim/sibling.sock").map_err(|e| format!("sibling HttpServer::new: {}", e))?;
+                s2.start_server().map_err(|e| format!("sibling start_server: {}", e))?;
+                for _ in 0..sib_n {
+                    world::with(|w| w.client_connect("/sim/sibling.sock")).map_err(|e| format!("sibling connect: errno {}", e))?;
+                    s2.requests().map_err(|e| format!("sibling requests(): {}", e))?;
+                }
+                world::with(|w| w.mark_foreign());
+                Some(s2)
+            } else {
+                None
+            };
             let placeholder = if case.fds_from_zero && case.placeholder0 { Some(EventFd::new(libc::EFD_NONBLOCK).map_err(|e| e.to_string())?) } else { None };
             // (server's copy, harness' copy) of the kill switch, possibly created before the server
             let make = || -> Result<(EventFd, EventFd), String> {
@@ -538,9 +555,9 @@ impl ServerSim {
                 kill = Some(mine);
             }
             drop(placeholder);
-            Ok((server, kill, kill_extra))
+            Ok((server, kill, kill_extra, sibling))
         }));
-        let (server, kill, kill_extra) = match built {
+        let (server, kill, kill_extra, sibling) = match built {
             Ok(Ok(x)) => x,
             Ok(Err(e)) => return Err(Violation::new(&format!("{}:setup", prop), 0, e)),
             Err(p) => return Err(Violation::new(&format!("{}:panic", prop), 0, format!("server setup panicked: {}", panic_msg(p)))),
@@ -548,6 +565,7 @@ impl ServerSim {
         let epfd = server.epoll().as_raw_fd();
         world::with(|w| w.take_log());
         Ok(ServerSim {
+            sibling,
             server: Some(server),
             kill,
             kill_extra,
